@@ -332,7 +332,10 @@ func checkC17(env *Env) []Violation {
 	if st == nil {
 		return out
 	}
-	conflict := env.Prog.Cfg.Flags["conflict"] == 1
+	// whether the history reuses a name is derived from the history itself, never
+	// taken on trust from the generator's flag (a shrunk or hand-written program
+	// may reuse a name without carrying the flag)
+	conflict := env.Prog.Cfg.Flags["conflict"] == 1 || promNameReuse(ops)
 	mode := ""
 	if env.Prog.Cfg.Prom != nil {
 		mode = env.Prog.Cfg.Prom.OnError
@@ -510,6 +513,32 @@ func checkC17(env *Env) []Violation {
 	}
 	_ = fmt.Sprint
 	return out
+}
+
+// promNameReuse reports whether one fully-qualified name is requested with more
+// than one (kind, label-name set, bucket set): Prometheus rightly rejects those.
+func promNameReuse(ops []*OpRec) bool {
+	sigs := map[string]string{}
+	for _, r := range ops {
+		mv, _ := r.Obj.(*metricVar)
+		if mv == nil {
+			continue
+		}
+		keys := make([]string, 0, len(mv.Tags))
+		for k := range mv.Tags {
+			keys = append(keys, k)
+		}
+		sort.Strings(keys)
+		sig := mv.kind + "|" + strings.Join(keys, ",")
+		if mv.spec != nil {
+			sig += fmt.Sprintf("|%v|%v|%v", mv.spec.Dur, mv.spec.Durs, mv.spec.Bits)
+		}
+		if old, ok := sigs[mv.FullName]; ok && old != sig {
+			return true
+		}
+		sigs[mv.FullName] = sig
+	}
+	return false
 }
 
 func specHash(b *BucketSpec) uint32 {
